@@ -340,6 +340,77 @@ func checkC09(c *Ctx) {
 				sprintf("%s writes (%s) to the stream shared by %s without holding %s (held: [%s])", fname(u.fn), u.what, g, guard, strings.Join(u.locks.Keys(), ",")))
 		}
 	}
+	// the process's own stdout: where a spawner's stream IS os.Stdout (handed to it by its library caller), any other
+	// library function that writes to os.Stdout directly writes to that same stream and must hold the same mutex
+	isStdout := func(v ssa.Value) bool {
+		for {
+			switch x := v.(type) {
+			case *ssa.MakeInterface:
+				v = x.X
+				continue
+			case *ssa.ChangeInterface:
+				v = x.X
+				continue
+			}
+			break
+		}
+		if u, ok := v.(*ssa.UnOp); ok {
+			if g, ok := u.X.(*ssa.Global); ok && g.Name() == "Stdout" && g.Pkg != nil && g.Pkg.Pkg.Path() == "os" {
+				return true
+			}
+		}
+		return false
+	}
+	stdoutGuard, stdoutGroup := "", ""
+	for _, g := range gnames {
+		for _, fn := range c.P.LibFns {
+			if fname(ir.Outer(fn)) != g || fn != ir.Outer(fn) {
+				continue
+			}
+			for _, e := range ir.Callers(c.G, fn) {
+				if e.Site == nil {
+					continue
+				}
+				for _, a := range e.Site.Common().Args {
+					if isStdout(a) {
+						stdoutGuard, stdoutGroup = commonGuard(groups[g], "", c), g
+					}
+				}
+			}
+		}
+	}
+	if stdoutGroup != "" {
+		for _, fn := range c.P.LibFns {
+			cnt := 0
+			ir.EachInstr(fn, func(_ *ssa.BasicBlock, _ int, in ssa.Instruction) {
+				u, ok := in.(*ssa.UnOp)
+				if !ok || !isStdout(u) {
+					return
+				}
+				for _, dv := range derived(u) {
+					if dv.Referrers() == nil {
+						continue
+					}
+					for _, r := range *dv.Referrers() {
+						what, ok := writeUse(r, dv)
+						if !ok {
+							continue
+						}
+						// handing it to the spawner is how the stream is designated, not a write
+						if call, ok := r.(ssa.CallInstruction); ok {
+							if sc := ir.StaticCallee(call); sc != nil && fname(sc) == stdoutGroup {
+								continue
+							}
+						}
+						cnt++
+						c.R.Check(stdoutGuard != "" && ls.At(r).HasWrite(stdoutGuard), "R-shared-writer", sprintf("os.Stdout written directly in %s #%d", fname(fn), cnt), c.Pos(r.Pos()),
+							"holds "+stdoutGuard,
+							sprintf("%s writes (%s) to os.Stdout — the very stream %s serialises with %s — without holding that mutex (held: [%s]): the two writers' lines interleave", fname(fn), what, stdoutGroup, stdoutGuard, strings.Join(ls.At(r).Keys(), ",")))
+					}
+				}
+			})
+		}
+	}
 	c.R.Min("R-shared-writer", 6)
 	c.R.Extra["shared_stream_groups"] = gnames
 
@@ -545,6 +616,7 @@ func checkC09Payload(c *Ctx) {
 	poolResetRule(c, "R-pool-reset")
 	c09NoWriteDeadline(c, "R-frame-complete")
 	c09EncoderFramed(c, "R-frame-terminated")
+	c10OneResponder(c, "R-one-responder")
 	// (a) fmt.Fprintf(w, "...data: %s...", payload): payload must come from json.Marshal
 	// (b) functions that write a payload followed by "\n" to an io.Writer param (stdio line writer): payload from json.Marshal
 	for _, fn := range c.P.LibFns {
